@@ -252,13 +252,20 @@ def r4_lookup(ctx):
     for c in calls_in(fn):
         if isinstance(c.func, ast.Attribute) and c.func.attr == "index" and dotted(c.func.value) in ("symbols", "lower_names", "names"):
             found[dotted(c.func.value)] = U(c.args[0]) if c.args else ""
+    from .c01 import _derived_sites, derived_number_tables
+    key_errors = set()
+    for q, node, tname, key in _derived_sites(ctx, ctx.mod(PERIODIC)):
+        if q == "atomic_number":    # a module-level dict standing for <base>.index(key) + 1 (its content is checked by C14-R2); misses raise KeyError
+            found.setdefault(derived_number_tables(ctx)[tname][0], U(key))
+            if isinstance(node, ast.Subscript):
+                key_errors.add(derived_number_tables(ctx)[tname][0])
     ctx.check(found.get("symbols") == "%s.capitalize()" % arg, anchor, "symbol-lookup-capitalized",
               "symbol lookup must normalise case with .capitalize(); found %s" % found.get("symbols"), node=fn)
     ctx.check(found.get("lower_names") == "%s.lower()" % arg, anchor, "name-lookup-lowercased",
               "name lookup must be lower_names.index(name.lower()); found %s" % found, node=fn)
     # the fallback is reached on ValueError only and nothing is swallowed
     tr = [n for n in walk_shallow(fn) if isinstance(n, ast.Try)]
-    ok = len(tr) == 1 and len(tr[0].handlers) == 1 and dotted(tr[0].handlers[0].type) == "ValueError" \
+    ok = len(tr) == 1 and len(tr[0].handlers) == 1 and dotted(tr[0].handlers[0].type) == ("KeyError" if "symbols" in key_errors else "ValueError") \
         and isinstance(tr[0].handlers[0].body[-1], ast.Return)
     ctx.check(ok, anchor, "fallback-on-ValueError", "the name lookup must be the ValueError fallback of the symbol lookup and return its result", node=fn)
 
@@ -329,32 +336,81 @@ def r5_mass_fractions(ctx):
               "pairing substances and stoichiometries by position breaks when the two mappings are ordered differently or one is a superset: %s" % [U(r) for r in reads], node=fn)
     if not (reads and all(keyed)):
         return
+    # per-key tables built on the way (`masses = {k: substances[k].mass for k in stoichiometries}`) are read through: everything is brought to
+    # an expression in K (the key of a stoichiometry entry) and V (its coefficient)
+    import copy
+
+    def over_stoich(gen):
+        """(key name, value name or None) when the generator ranges over the entries of `stoichiometries`, unfiltered"""
+        if gen.ifs or gen.is_async:
+            return None
+        it = U(gen.iter)
+        tn_ = target_names(gen.target)
+        if it in ("stoichiometries", "stoichiometries.keys()") and isinstance(gen.target, ast.Name):
+            return gen.target.id, None
+        if it == "stoichiometries.items()" and isinstance(gen.target, ast.Tuple) and len(tn_) == 2 and all(isinstance(e, ast.Name) for e in gen.target.elts):
+            return tn_[0], tn_[1]
+        return None
+
+    tables = {}
+
+    def generic(expr, kname, vname):
+        """expr with the entry's key spelled K, its coefficient V, and reads of the per-key tables replaced by what they hold for K"""
+        class T(ast.NodeTransformer):
+            def visit_Subscript(self, n):
+                if isinstance(n.value, ast.Name) and n.value.id in tables and isinstance(n.slice, ast.Name) and n.slice.id == kname:
+                    return copy.deepcopy(tables[n.value.id])
+                if U(n) == "stoichiometries[%s]" % kname:
+                    return ast.Name(id="V", ctx=ast.Load())
+                return self.generic_visit(n)
+
+            def visit_Name(self, n):
+                if n.id == kname:
+                    return ast.Name(id="K", ctx=n.ctx)
+                if vname is not None and n.id == vname:
+                    return ast.Name(id="V", ctx=n.ctx)
+                return n
+        return T().visit(copy.deepcopy(expr))
+
     tot = None
     for n in walk_shallow(fn):
-        if isinstance(n, ast.Assign) and isinstance(n.value, ast.Call) and call_name(n.value) == "sum" and isinstance(n.targets[0], ast.Name):
-            tot = n
+        if isinstance(n, ast.Assign) and len(n.targets) == 1 and isinstance(n.targets[0], ast.Name):
+            if isinstance(n.value, ast.DictComp) and len(n.value.generators) == 1 and over_stoich(n.value.generators[0]):
+                kn_, vn_ = over_stoich(n.value.generators[0])
+                if U(n.value.key) == kn_:
+                    tables[n.targets[0].id] = generic(n.value.value, kn_, vn_)
+            elif isinstance(n.value, ast.Call) and call_name(n.value) == "sum":
+                tot = n
     ret = [n for n in walk_shallow(fn) if isinstance(n, ast.Return)][-1]
-    if tot is None or not isinstance(ret.value, ast.DictComp):
+    if tot is None or not isinstance(ret.value, ast.DictComp) or len(tot.value.args) != 1:
         raise AnalysisError("mass_fractions: unexpected shape (sum(...) / dict comprehension)")
     comp = tot.value.args[0]
-    if not isinstance(comp, (ast.ListComp, ast.GeneratorExp)):
-        raise AnalysisError("mass_fractions: total is not a comprehension sum")
-    g1, g2 = comp.generators[0], ret.value.generators[0]
-    same_iter = U(g1.iter) == U(g2.iter) and U(g1.target) == U(g2.target) and not g1.ifs and not g2.ifs
-    ctx.check(same_iter, anchor, "same-mapping", "numerators and total iterate different sources: %s vs %s" % (U(g1.iter), U(g2.iter)), node=ret)
+    if isinstance(comp, (ast.ListComp, ast.GeneratorExp)) and len(comp.generators) == 1:
+        src = over_stoich(comp.generators[0])
+        ctx.check(src is not None, anchor, "same-mapping", "the total must run over every entry of the stoichiometries; it runs over `%s`" % U(comp.generators[0]), node=tot)
+        if src is None:
+            return
+        summand = generic(comp.elt, *src)
+    elif isinstance(comp, ast.Call) and isinstance(comp.func, ast.Attribute) and comp.func.attr == "values" and U(comp.func.value) in tables:
+        summand = tables[U(comp.func.value)]
+    else:
+        raise AnalysisError("mass_fractions: total is not a sum over the stoichiometry entries")
+    g2 = ret.value.generators[0]
+    src2 = over_stoich(g2) if len(ret.value.generators) == 1 else None
+    ctx.check(src2 is not None, anchor, "same-mapping", "the fractions must run over every entry of the stoichiometries; they run over `%s`" % U(g2), node=ret)
+    if src2 is None:
+        return
     tn = tot.targets[0].id
-    num = monomial(ret.value.value)
-    den = monomial(comp.elt)
+    num = monomial(generic(ret.value.value, *src2))
+    den = monomial(summand)
     c, p = num
     p = dict(p)
     inv = p.pop(tn, None)
     ctx.check(inv == {"1": Fraction(-1)} and (c, p) == den, anchor, "same-term",
               "each fraction must be (its summand of the total) / total; numerator %s, summand %s" % (mono_str(num), mono_str(den)), node=ret)
-    kn = target_names(g2.target)[0]
-    ctx.check(U(ret.value.key) == kn, anchor, "keyed-by-substance", "fractions keyed by %s, expected %s" % (U(ret.value.key), kn), node=ret)
+    ctx.check(U(ret.value.key) == src2[0], anchor, "keyed-by-substance", "fractions keyed by %s, expected %s" % (U(ret.value.key), src2[0]), node=ret)
     # the term is mass * coefficient
-    vn = target_names(g2.target)[1]
-    ctx.check(set(den[1]) == {"substances[%s].mass" % kn, vn} and den[0] == 1, anchor, "term=mass*coeff",
+    ctx.check(set(den[1]) == {"substances[K].mass", "V"} and den[0] == 1 and all(e == {"1": Fraction(1)} for e in den[1].values()), anchor, "term=mass*coeff",
               "summand must be substances[k].mass * v; found %s" % mono_str(den), node=tot)
 
 
@@ -415,7 +471,18 @@ MUTANTS.append(Mutant("alkali-group-offset", [(PERIODIC, "groups[1] = (1,) + tup
 MUTANTS.append(Mutant("mass-pops-charge", [(PERIODIC, "    mass = 0.0\n    for k, v in composition.items():\n        if k == 0:  # electron\n            mass -= v * 5.489e-4\n        else:\n            mass += v * relative_atomic_masses[k - 1]\n    return mass", "    mass = -composition.pop(0, 0) * 5.489e-4\n    for k, v in composition.items():\n        mass += v * relative_atomic_masses[k - 1]\n    return mass")], "C14-R7", "argument-not-mutated"))
 MUTANTS.append(Mutant("fractions-zip-by-position", [(CHEM, "    tot_mass = sum([substances[k].mass * v for k, v in stoichiometries.items()])\n    return {k: substances[k].mass * v / tot_mass for k, v in stoichiometries.items()}", "    masses = [s.mass * v for s, v in zip(substances.values(), stoichiometries.values())]\n    tot_mass = sum(masses)\n    return {k: m / tot_mass for k, m in zip(stoichiometries, masses)}")], "C14-R5", "mass-looked-up-by-key"))
 
+MUTANTS.append(Mutant("symbol-dict-off-by-one", [
+    (PERIODIC, "lower_names = tuple(n[1].lower() for n in _elements)\n", "lower_names = tuple(n[1].lower() for n in _elements)\n_number_by_symbol = dict(zip(symbols, range(1, len(symbols))))\n"),
+    (PERIODIC, "return symbols.index(name.capitalize()) + 1\n    except ValueError:", "return _number_by_symbol[name.capitalize()]\n    except KeyError:")], "C14-R2", "Z=index+1:symbols.index"))
+MUTANTS.append(Mutant("fractions-total-unweighted", [(CHEM, "    tot_mass = sum([substances[k].mass * v for k, v in stoichiometries.items()])\n    return {k: substances[k].mass * v / tot_mass for k, v in stoichiometries.items()}",
+                                                      "    masses = {k: substances[k].mass for k in stoichiometries}\n    tot_mass = sum(masses.values())\n    return {k: masses[k] * v / tot_mass for k, v in stoichiometries.items()}")], "C14-R5", "same-term"))
+
 TWINS = [
+    Twin("symbol-dict-lookup", [
+        (PERIODIC, "lower_names = tuple(n[1].lower() for n in _elements)\n", "lower_names = tuple(n[1].lower() for n in _elements)\n_number_by_symbol = dict(zip(symbols, range(1, len(symbols) + 1)))\n"),
+        (PERIODIC, "return symbols.index(name.capitalize()) + 1\n    except ValueError:", "return _number_by_symbol[name.capitalize()]\n    except KeyError:")]),
+    Twin("fractions-per-key-table", [(CHEM, "    tot_mass = sum([substances[k].mass * v for k, v in stoichiometries.items()])\n    return {k: substances[k].mass * v / tot_mass for k, v in stoichiometries.items()}",
+                                      "    terms = {k: substances[k].mass * v for k, v in stoichiometries.items()}\n    tot_mass = sum(terms.values())\n    return {k: terms[k] / tot_mass for k in stoichiometries}")]),
     Twin("mass-copy-then-pop", [(PERIODIC, "    mass = 0.0\n    for k, v in composition.items():", "    composition = dict(composition)\n    mass = 0.0\n    for k, v in composition.items():")]),
     Twin("electron-mass-more-digits", [(PERIODIC, "mass -= v * 5.489e-4", "mass -= v * 5.48579909e-4")]),
     Twin("commuted-product", [(PERIODIC, "mass += v * relative_atomic_masses[k - 1]", "mass += relative_atomic_masses[k - 1] * v")]),
